@@ -14,6 +14,8 @@ before-hook-creation), execHook returns at once and the earlier, successful hook
 hook-succeeded are not deleted -- unlike when a hook's watch fails.
 -/
 import Helm.Lemmas.Hooks
+import Helm.Gen.Tables
+import Helm.Spec.Skeletons
 
 namespace Helm.Props.C12
 open Helm.Hooks
@@ -180,5 +182,23 @@ example :
     (execHook (fun n => n = "b") [] hs "e").evs =
       [.del "z", .create "z", .watch "z", .del "a", .create "a", .watch "a", .del "b", .create "b", .watch "b", .del "b", .del "z"] := by
   decide
+
+/-! ### the shape of execHook and of the operations in the source (regenerated at every run) -/
+
+/-- `execHook`: delete by before-hook-creation, (record,) create, watch; on failure delete the
+failed hook by hook-failed and the earlier ones by hook-succeeded; at the end delete by
+hook-succeeded -- the calls the model's `runHooks` was written from, in this order. -/
+theorem exec_hook_skeleton : Helm.Gen.skelExecHook = Helm.Spec.skelExecHook := by decide
+
+/-- Pre-hooks come before the resource phase and post-hooks after the wait, in all four operations. -/
+theorem hooks_around_resources :
+    Helm.Spec.precedes "cfg.execHook:HookPreInstall" "KubeClient.Create" Helm.Gen.skelInstallPerform = true ∧
+    Helm.Spec.precedes "waiter.Wait" "cfg.execHook:HookPostInstall" Helm.Gen.skelInstallPerform = true ∧
+    Helm.Spec.precedes "cfg.execHook:HookPreUpgrade" "KubeClient.Update" Helm.Gen.skelUpgradeReleasing = true ∧
+    Helm.Spec.precedes "waiter.Wait" "cfg.execHook:HookPostUpgrade" Helm.Gen.skelUpgradeReleasing = true ∧
+    Helm.Spec.precedes "cfg.execHook:HookPreRollback" "KubeClient.Update" Helm.Gen.skelRollbackPerform = true ∧
+    Helm.Spec.precedes "waiter.Wait" "cfg.execHook:HookPostRollback" Helm.Gen.skelRollbackPerform = true ∧
+    Helm.Spec.precedes "cfg.execHook:HookPreDelete" "u.deleteRelease" Helm.Gen.skelUninstallRun = true ∧
+    Helm.Spec.precedes "waiter.WaitForDelete" "cfg.execHook:HookPostDelete" Helm.Gen.skelUninstallRun = true := by decide
 
 end Helm.Props.C12
